@@ -8,7 +8,7 @@ Wrapped(s, n) == IF n = 0 THEN s ELSE IF n = 1 THEN <<"(">> \o s \o <<")">>
                  ELSE IF n = 2 THEN <<"(", "(">> \o s \o <<")", ")">> ELSE <<"(", "(", "(">> \o s \o <<")", ")", ")">>
 D3 == D2 \cup Bin(D1, D1)
 (* groups whose alternatives are escaped parentheses, concatenated and starred: '((a|\() (b|a))*' *)
-EscLeaf == { [t |-> "sym", s |-> "a"], [t |-> "sym", s |-> "E("], [t |-> "sym", s |-> "E)"] }
+EscLeaf == { [t |-> "sym", s |-> "a"], [t |-> "sym", s |-> "E("], [t |-> "sym", s |-> "E)"], [t |-> "sym", s |-> "E_"] }   \* E_ = escaped blank
 EscAlt == { [t |-> "alt", l |-> x, r |-> y] : x \in EscLeaf, y \in EscLeaf }
 D4 == Un(Bin(EscAlt, EscAlt)) \cup Bin(EscAlt, Un(EscAlt)) \cup Un(Bin(EscLeaf, EscAlt))
 InitA == rs \in { Wrapped(Render(a, full), n) : a \in D3, full \in BOOLEAN, n \in 0..3 }
